@@ -34,6 +34,7 @@ fn dispatch(op: &str, req: &Value) -> Value {
     match op {
         "version" | "api" | "newtype" => ops_parse::run(op, req),
         "layer-struct" => ops_layer::layer_struct(req),
+        "layer-trait" => ops_layer::layer_trait(req),
         "writer" => ops_writer::run(req),
         "env-apply" => ops_env::apply(req),
         "env-roundtrip" => ops_env::roundtrip(req),
